@@ -545,13 +545,24 @@ pub fn next_entry(g: &mut Gen, r: &dyn Runner) -> String {
             return op;
         }
     }
-    if g.rng.chance(1, 30) {
-        // a user closure panicking inside replace_entry_with
+    if g.rng.chance(1, 16) {
+        // a user closure panicking inside an entry method
         let k = match g.present_key(r, "a") {
             Some(k) if g.rng.chance(3, 4) => k,
             _ => g.key(),
         };
-        return format!("a entry_replace_panic {} {}", k, g.id());
+        return match g.rng.below(7) {
+            0 => format!("a entry_and_replace_panic {} {}", k, g.id()),
+            1 => format!("a entry_or_insert_with_panic {} {}", k, g.id()),
+            2 => format!("a entry_and_modify_panic {} {}", k, g.id()),
+            3 | 4 => format!(
+                "a raw_replace_panic {} {} {}",
+                *g.rng.pick(&["raw_from_key", "raw_from_key_hashed", "raw_from_hash"]),
+                k,
+                if g.rng.chance(1, 2) { "and" } else { "occ" }
+            ),
+            _ => format!("a entry_replace_panic {} {}", k, g.id()),
+        };
     }
     if g.rng.chance(6, 10) {
         let tgt = if g.rng.chance(1, 8) { "b" } else { "a" };
